@@ -491,15 +491,15 @@ class Block:
 
     def is_excluded_or_inconsistent_combination(self, di: Dict[Factor, SimpleLevel]) -> bool:
         """Like extends is_excluded_combination to also check for combinations that are
-        inconsistent with derived-factor definitions. Assumes that `di` is based on the
-        block's first crossing.
+        inconsistent with derived-factor definitions. The combination `di` is based on
+        one of the block's crossings.
         """
         if self.is_excluded_combination(di):
             return True
         if self.crossings == []:
             return False
-        for f in self.crossings[0]:
-            if isinstance(f, DerivedFactor) and not f.has_complex_window and f in di:
+        for f in di:
+            if isinstance(f, DerivedFactor) and not f.has_complex_window:
                 l = cast(DerivedLevel, di[f])
                 # A source factor that is not part of the combination can take any
                 # of its levels (as in counting the crossing's exclusions).
